@@ -275,7 +275,49 @@ def one_word_line_cases(chunk):
     yield {"tc": "01:02:03:04" if v % 2 else "01:02:03;04", "words": [v], "upper": bool(v & 4), "sep": " "}
 
 
+# ---- words that are not channel-1 field-1 data, inside a channel-1 caption ("only channel-1 field-1 data is ever decoded")
+
+def foreign_chunks(tier, seed):
+  return [(a, a + 2048) for a in range(0, 32768, 2048)]
+
+
+def foreign_cases(chunk):
+  for v in range(*chunk):
+    s7 = (v >> 7) << 8 | (v & 0x7F)        # the 2^14 seven-bit words, parity stripped
+    if s7 == 0:
+      continue
+    c = ref.classify(s7)
+    if c[0] == "unknown" or (c[0] in ("pac", "midrow", "attr", "control", "special", "extended") and c[1] != 1):
+      yield {"w": s7, "parity": bool(v & 1)}
+
+
+def check_foreign(case, res):
+  """a pop-on caption 'AB' <w> 'CD': whatever the reader makes of the words that follow w, nothing of w itself reaches the caption -
+  the text shown is made of the characters A B C D, in that order"""
+  from ttconv.scc.reader import to_model
+  w = case["w"]
+  cls = ref.classify(w)
+  res.label("foreign:" + (cls[0] if cls[0] == "unknown" else "channel-2" if cls[1] == 2 else "field-2"))
+  word = "%04x" % ((with_parity(w >> 8) << 8 | with_parity(w & 0xFF)) if case["parity"] else w)
+  text = "Scenarist_SCC V1.0\n\n00:00:00:00\t9420 9420 9470 9470 c1c2 %s 43c4 942f 942f\n\n00:00:02:00\t942c 942c\n" % word
+  try:
+    doc = to_model(text)
+  except Exception as e:  # pylint: disable=broad-except
+    res.crash(e, "reader:")
+    return
+  shown = ""
+  body = doc.get_body() if doc is not None else None
+  if body is not None:
+    from ttconv import model as _m
+    shown = "".join(e.get_text() for e in body.dfs_iterator() if isinstance(e, _m.Text))
+  it = iter("ABCD")
+  if not all(ch in it for ch in shown.replace(" ", "")):
+    res.fail("foreign-word-decoded:" + cls[0], "%s inside a channel-1 caption: the document shows %r" % (word, shown))
+  res.nontrivial = True
+
+
 PARTS = {
+  "foreign": Part("foreign", check_foreign, chunks=foreign_chunks, cases=foreign_cases, exhaustive=(True, True)),
   "words": Part("words", check_word, chunks=word_chunks, cases=word_cases, exhaustive=(True, True)),
   "lines1": Part("lines1", check_line, chunks=one_word_line_chunks, cases=one_word_line_cases, exhaustive=(True, True)),
   "lines": Part("lines", check_line, strategy=line_strategy, n=(6000, 1000000)),
